@@ -33,6 +33,8 @@ func runC10(c *an.Ctx) {
 	c.As(map[string]string{"R14a": "R10i"}, func() { r14a(c) })
 	// round 8
 	r10j(c)
+	// round 9
+	r10k(c)
 }
 
 // R10g: "values of a previous run are never visible in the next": the run variables handed to the tasks with START are
